@@ -145,6 +145,8 @@ def build(tier, seed):
         for zrn in ZRN:
             cases.append({'k': 'spectra', 'sc': sc, 'zrn': list(zrn)})
     cases.append({'k': 'reject'})
+    for g in sorted(DECIMAL_GRIDS):
+        cases.append({'k': 'grid', 'grid': g})
     for w in words(SIGMA, 1, L):
         cases.append({'k': 'word', 'w': list(w)})
     return {
@@ -1093,6 +1095,88 @@ def run_reject(r, case):
 
 
 # ---------------------------------------------------------------------------------------------------
+# evenly spaced node sets as users write them (decimal steps: the nodes are not exactly evenly spaced in binary, and
+# (x - x0) / step lands a hair below the whole number for many of them)
+DECIMAL_GRIDS = {
+    'k*0.01': lambda: [k * 0.01 for k in range(200)],
+    '0.3+0.02*k': lambda: [0.3 + 0.02 * k for k in range(100)],
+    'arange(0,5,0.1)': lambda: [float(v) for v in np.arange(0, 5, 0.1)],
+    'linspace(0,1,11)': lambda: [float(v) for v in np.linspace(0, 1, 11)],
+    'k/7': lambda: [k / 7.0 for k in range(60)],
+    '1e-3*k+1e6': lambda: [1e6 + 1e-3 * k for k in range(50)],
+}
+
+
+def run_grid(r, case):
+    """Long evenly spaced decimal node sets; the column is the node number, so the returned value names the node used.
+    Queries: every node itself, the floats next to it on either side, every midpoint.  All comparisons of a query with the nodes
+    are exact float comparisons (decided), so interp_left is compared exactly."""
+    xf = DECIMAL_GRIDS[case['grid']]()
+    n = len(xf)
+    r.nontrivial += 1
+    xa = np.array(xf)
+    ya = np.arange(n, dtype=float)
+    qs = []
+    for k in range(n):
+        qs.append(xf[k])
+        qs.append(float(np.nextafter(xf[k], np.inf)))
+        if k:
+            qs.append(float(np.nextafter(xf[k], -np.inf)))
+            qs.append(0.5 * (xf[k - 1] + xf[k]))
+    qs = sorted(set(q for q in qs if q >= xf[0]))
+    want = [float(max(i for i in range(n) if xf[i] <= q)) for q in qs]
+    base = {'grid': case['grid']}
+    r.cls('decimal-grid')
+    for form, arg in (('ndarray', np.array(qs)), ('list', list(qs))):
+        sub = dict(base, fn='interp_left', x0=form)
+        r.states += 1
+        ok, out = r.call('interp_left.decimal-grid', sub, fns.interp_left, arg, xa.copy(), ya.copy())
+        if ok:
+            try:
+                o = np.asarray(out, dtype=float)
+                bad = [i for i in range(len(qs))] if o.shape != (len(qs),) else [i for i in range(len(qs)) if o[i] != want[i]]
+            except Exception:
+                bad = list(range(len(qs)))
+            r.n_cmp += len(qs)
+            if bad:
+                i = bad[0]
+                r.fail('interp_left.decimal-grid', dict(sub, query=qs[i], on_node=bool(qs[i] in xf)),
+                       'value is not that of the greatest node not exceeding the query (%d of %d queries; first: query %r -> %r, '
+                       'expected node %d)' % (len(bad), len(qs), qs[i], (o[i] if np.ndim(o) == 1 and len(o) > i else out), int(want[i])),
+                       observed=out, expected=want)
+    nbad = 0
+    first = None
+    for q, wq in zip(qs, want):
+        r.states += 1
+        ok, out = r.call('interp_left.decimal-grid', dict(base, fn='interp_left', x0=q), fns.interp_left, q, xa, ya)
+        r.n_cmp += 1
+        if ok:
+            try:
+                good = float(out) == wq
+            except Exception:
+                good = False
+            if not good:
+                nbad += 1
+                first = first or (q, out, wq)
+    if nbad:
+        r.fail('interp_left.decimal-grid', dict(base, fn='interp_left', x0='scalar', query=first[0], on_node=bool(first[0] in xf)),
+               'scalar query: value is not that of the greatest node not exceeding the query (%d of %d queries; first: %r -> %r, '
+               'expected node %d)' % (nbad, len(qs), first[0], first[1], int(first[2])), observed=first[1], expected=first[2])
+    # table interpolation on the same grids: linear between the neighbouring nodes (the column is the node number, so the
+    # expected value is node index + fraction of the interval)
+    inside = [q for q in qs if q <= xf[-1]]
+    wlin = []
+    for q in inside:
+        i = int(max(j for j in range(n) if xf[j] <= q))
+        wlin.append(float(i) if i == n - 1 else i + (q - xf[i]) / (xf[i + 1] - xf[i]))
+    sub = dict(base, fn='interp2d')
+    r.states += 1
+    ok, out = r.call('interp2d.decimal-grid', sub, fns.interp2d, np.array(inside), xa.copy(), ya.reshape(-1, 1).copy())
+    if ok:
+        r.expect_close('interp2d.decimal-grid', sub, np.asarray(out).reshape(-1) if np.size(out) == len(inside) else out, wlin,
+                       rtol=1e-9, atol=1e-6, what='column = node number: node index + fraction of the interval')
+
+
 def run_case(case):
     r = Res()
     k = case['k']
@@ -1102,6 +1186,8 @@ def run_case(case):
         run_word(r, case)
     elif k == 'spectra':
         run_spectra(r, case)
+    elif k == 'grid':
+        run_grid(r, case)
     else:
         run_reject(r, case)
     return r
@@ -1141,6 +1227,9 @@ def snippet(case, v):
                        "None if sub['col'] is None else f[:, sub['col']]))\n"
                        "print([np.interp(q, xf, f[:, 0]) for q in x], [int(np.sum(xf <= q)) - 1 for q in x])   # column 0 / node index\n"
                        % (qa, sub.get('arrangement', sub.get('x'))))
+    if k == 'grid':
+        return head + ("# node set DECIMAL_GRIDS[%r] of mcheck/props/c20.py; column = node number; query sub['query'] / all nodes, "
+                       "their neighbouring floats and midpoints\n" % (case['grid'],))
     if k == 'interp':
         return head + ("# sub.get('nodes') / sub.get('table'): transformed node set / table (NODE_VARIANTS, TABLE_VARIANTS in c20.py)\n"
                        "xf = np.array(case['xf']); f = np.array(case['f'], float)\n"
